@@ -49,8 +49,14 @@ def build(case, seen):
     a, b = np.array(case["a"], dtype=float), np.array(case["b"], dtype=float)
     gs = [drive.case_function(case, offset=7 * i) for i in range(case["nout"])]
 
+    # the driver option evaluation_points: the interpolant is evaluated there after every evaluation and compared with the
+    # model itself (operation.eval_analytic -> f.eval); these model evaluations are not part of the grid
+    skip = set(tuple(float(t) for t in q) for q in case.get("evalpts") or [])
+
     def fun(x):
-        seen.add(tuple(float(t) for t in x))
+        key = tuple(float(t) for t in x)
+        if key not in skip:
+            seen.add(key)
         return [float(g(x)) * fscale for g in gs]
     fscale = float(case.get("fscale", 1.0))
     f = FunctionCustom(fun, output_dim=case["nout"])
@@ -124,8 +130,9 @@ def run_limited(sa, op, err, case, tol, min_ev, max_ev, maxsteps, hooks=None):
     lmax = case["lmax"] if case["kind"] != "cell" else case["lmin"]
     try:
         with drive.quiet():
+            extra = dict(evaluation_points=[tuple(q) for q in case["evalpts"]]) if case.get("evalpts") and case["kind"] == "dw" else {}
             res = sa.performSpatiallyAdaptiv(lmin, lmax, err, tol=tol, max_evaluations=max_ev, min_evaluations=min_ev,
-                                             print_output=False)
+                                             print_output=False, **extra)
     except drive.StopHistory:
         pass
     finally:
@@ -284,7 +291,8 @@ def run(case):
     out.cls("norm=%s" % p, "nout=%d" % case["nout"], "reference=%s" % case["refmode"], "fscale=%g" % case.get("fscale", 1.0))
     if kind == "dw":
         out.cls("version=%d" % case["version"])
-    out.cls(drive.scale_class(case), "integrand-cache=%s" % ("off" if case.get("nocache") else "on"))
+    out.cls(drive.scale_class(case), "integrand-cache=%s" % ("off" if case.get("nocache") else "on"),
+            "evaluation_points=%s" % ("given" if case.get("evalpts") else "none"))
     out.info = dict(max_history_len=len(E), max_points=N[-1] if N else 0)
     return out
 
@@ -335,7 +343,16 @@ def _strategy(kind):
             c["triples"] = draw(st.lists(st.tuples(st.integers(0, 40), st.sampled_from([0, 1, 1, 2, 3]), st.integers(0, 40), st.sampled_from([0, 0, 1, 2, 3]),
                                                    st.integers(0, 40), st.sampled_from([0, 1, 2, 3, 4])).map(list), min_size=1, max_size=3))
             c["nocache"] = draw(st.sampled_from([False, False, True]))
-            return drive.apply_boxscale(c, sc)
+            if kind == "dw" and draw(st.integers(0, 2)) == 0:
+                # driver option evaluation_points (non-dyadic interior positions); dimension-wise only: the extend-split
+                # interpolation evaluates the integrand at further points after the count of the step was taken (observed on
+                # the unchanged tree, see DESIGN 6.3), the cell scheme has no interpolation
+                fr = draw(st.lists(st.tuples(*[st.sampled_from([0.137, 0.291, 0.433, 0.617, 0.771, 0.913])] * dim), min_size=1, max_size=4))
+                c["evalfr"] = [list(q) for q in fr]
+            c = drive.apply_boxscale(c, sc)
+            if c.get("evalfr"):
+                c["evalpts"] = [[c["a"][d] + (c["b"][d] - c["a"][d]) * q[d] for d in range(dim)] for q in c.pop("evalfr")]
+            return c
         return s()
     return strat
 
